@@ -18,6 +18,8 @@ def unit_atoms(obj):
 
 
 def run(chk, repo, tier):
+    from .common import no_hidden_state
+    no_hidden_state(chk, repo, 'C13')
     chk.clause('C13-a', 'operator table: dunder -> named method -> numpy ufunc', 12)
     chk.clause('C13-b', 'operands are not modified by arithmetic, sampling, binning or integration', 6)
     chk.clause('C13-c', 'the unit of each operand is consulted before their wavelength grids are combined', 2)
@@ -161,6 +163,13 @@ def run(chk, repo, tier):
             any(x in w(o1, 'amax') for x in ha[2]) and any(x in w(o2, 'amax') for x in ha[2])
         chk.ob('C13-f', 'N-symmetric', fi.key, f'grid spans min of the minima to max of the maxima of both operands [{tag}]',
                sym_lo and sym_hi, f'linspace({fmt(lo)[:100]}, {fmt(hi)[:100]}, ...)', fi.loc(lin[0].node))
+        # when the second operand was converted, nothing of the common grid may come from its unconverted wavelengths
+        if o2 != S('s2'):
+            raw = {nf.attr(S('s2'), 'wave').single_atom(), nf.attr(S('s2'), '_wave').single_atom()}
+            used = [x for x in lin[0].data['args'] if isinstance(x, Poly) and raw & nf.value_atoms(x)]
+            chk.ob('C13-f', 'D-must-not-depend', fi.key, f'grid built from the converted operand only [{tag}]', not used,
+                   'the common grid (range or sampling step) is computed from s2.wave before its unit conversion: '
+                   + '; '.join(fmt(x)[:120] for x in used) if used else '', fi.loc(lin[0].node))
         # each operand's samples land in its own slots, filled with fill_value elsewhere
         r = p.ret
         okfill = isinstance(r, Tup) and len(r) == 3
